@@ -562,7 +562,7 @@ def pick_variant(c, rnd):
 
 def replay(c, script_in, states=None, U=1, version=3, variant='arg',
            ranges_per_reply=128, err_code=FX_FAILURE, workdir=None,
-           late=True):
+           late=True, predst=None, progress=False):
     """Run one behaviour against the real client.  c: configuration dict,
     script_in: see split_behaviour, states: model states for conformance
     (None: no conformance, only the property monitors).
@@ -600,6 +600,25 @@ def replay(c, script_in, states=None, U=1, version=3, variant='arg',
         else:
             with open(lsrc, 'wb') as f:
                 f.write(src)
+    # what is at the destination before the call: nothing, or a file that is
+    # shorter / longer than / as long as the source, with other bytes
+    res['predst'], res['progress'] = predst, progress
+    reports = []
+    if predst and op != 'read':
+        n = {'shorter': max(len(src) - U, 0), 'equal': len(src),
+             'longer': len(src) + 2 * U + 1}[predst]
+        if op == 'write':
+            n = {'shorter': U, 'equal': (off0 + size) * U,
+                 'longer': (off0 + size + 2) * U + 1}[predst]
+        junk = b'\xee' * n
+        if op == 'get':
+            with open(os.path.join(tmp, 'dst'), 'wb') as f:
+                f.write(junk)
+        else:
+            files[b'dst'] = RFile(junk)
+    pkw = {'progress_handler': (lambda sp, dp, done, total:
+                                reports.append((done, total)))} \
+        if progress and op in ('get', 'put', 'copy') else {}
     sftp, script = w.session(sftp_version=version, version=version, exts=exts,
                              files=files, ranges_per_reply=ranges_per_reply)
     got = {}
@@ -635,13 +654,13 @@ def replay(c, script_in, states=None, U=1, version=3, variant='arg',
                 await f.close()
         elif op == 'get':
             await sftp.get('src', os.path.join(tmp, 'dst'), sparse=sparse,
-                           block_size=B * U, max_requests=M)
+                           block_size=B * U, max_requests=M, **pkw)
         elif op == 'put':
             await sftp.put(os.path.join(tmp, 'src'), 'dst', sparse=sparse,
-                           block_size=B * U, max_requests=M)
+                           block_size=B * U, max_requests=M, **pkw)
         else:
             await sftp.copy('src', 'dst', sparse=sparse,
-                            block_size=B * U, max_requests=M)
+                            block_size=B * U, max_requests=M, **pkw)
         return None
 
     task = None
@@ -777,6 +796,14 @@ def replay(c, script_in, states=None, U=1, version=3, variant='arg',
         if res['outcome'] == 'returned':
             judge_success(res, c, U, op, task.result(), script, tmp, src,
                           got, variant)
+            if pkw and not sparse:
+                # the progress handler's reports: at least one (also for an
+                # empty file), monotone, the last one complete
+                okp = bool(reports) and reports[-1] == (A * U, A * U) and \
+                    all(x[0] <= y[0] for x, y in zip(reports, reports[1:]))
+                if not okp:
+                    res['l1'].append(('ProgressReports', f'{op} of {A * U} '
+                                      f'bytes: progress reports {reports}'))
             if res['err_injected']:
                 res['l1'].append(('FailLoud', 'a request was answered with an '
                                   'error status but the call reported '
